@@ -1319,7 +1319,13 @@ class Interp:
         if self.rule is not None and hasattr(self.rule, 'on_opaque'):
             self.rule.on_opaque(self, w, ci, args)
         # havoc everything reachable through `&mut` arguments
+        pairs = []
         for a, ty in zip(args, ci.arg_tys):
+            pairs.append((a, ty))
+            # the Fn* call ABI passes the arguments as one tuple: `f(x, &mut y)` is call_once(f, (x, &mut y))
+            if ty.get('k') == 'tuple' and a[0] == 'tuple' and len(ty.get('of', [])) == len(a[1]):
+                pairs.extend(zip(a[1], ty['of']))
+        for a, ty in pairs:
             if ty.get('k') == 'ref' and ty.get('mut') and a[0] == 'ref' and a[1][0] not in ('const', 'val'):
                 nv = TOP
                 if self.rule is not None and hasattr(self.rule, 'havoc_value'):
